@@ -123,7 +123,13 @@ def corpus(tier, seed):
                 t = c.split("<")[1].split(",")[0] if k != "c_nonprim" else c
                 if t not in seen_t and n < (4 if k in ("c_mm", "c_ew", "c_red") else 2):
                     seen_t.add(t); pick.append(c); n += 1
-        calls = pick
+        # sizes with hand-written intrinsic kernels of their own are always in (norm / inner of 4 and 9 elements, 2x2 / 3x3 / 4x4
+        # determinant, inverse, solve): they are where the ISA- and macro-specific code (e.g. the FASTOR_USE_HADD variants) lives
+        must = ["c_redf<%s,%d>(%du);" % (t, n, seed * 3 + n) for t in FTYPES for n in (4, 9, 16)] + \
+               ["c_linalg<%s,%d>(%du);" % (t, n, seed * 5 + n) for t in FTYPES for n in (2, 3, 4)] + \
+               ["c_red<%s,%d>(%du);" % (t, n, seed * 7 + n) for t in ("int32_t", "int64_t") for n in (4, 8, 9)]
+        have = set(c.split("(")[0] for c in pick)
+        calls = pick + [c for c in must if c.split("(")[0] not in have]
     return calls
 
 def parse_cases(out):
